@@ -92,10 +92,11 @@ pub open spec fn base_name(p: PathV) -> Seq<u8> {
     p.last()
 }
 
-/// A name that denotes exactly one directory entry: non-empty, no '/', no NUL, not "." or "..".
+/// A name that denotes exactly one directory entry: non-empty, no '/', not "." or "..".
+/// (A name with an embedded NUL is a single component too; every system call rejects it.)
 pub open spec fn single_component(n: Seq<u8>) -> bool {
     &&& n.len() > 0
-    &&& forall|i: int| 0 <= i < n.len() ==> n[i] != 0x2f && n[i] != 0
+    &&& forall|i: int| 0 <= i < n.len() ==> n[i] != 0x2f
     &&& n != seq![0x2eu8]
     &&& n != seq![0x2eu8, 0x2eu8]
 }
@@ -105,6 +106,35 @@ pub open spec fn valid_key(n: Seq<u8>) -> bool {
     &&& single_component(n)
     &&& n[0] != 0x2e
     &&& n[0] != 0x5c
+}
+
+/// The first-byte rule the documentation states for keys.
+pub open spec fn first_byte_ok(n: Seq<u8>) -> bool {
+    n.len() > 0 && n[0] != 0x2e && n[0] != 0x2f && n[0] != 0x5c
+}
+
+pub proof fn lemma_valid_key(n: Seq<u8>)
+    requires
+        first_byte_ok(n),
+        !n.contains(0x2fu8),
+    ensures
+        valid_key(n),
+{
+    assert forall|i: int| 0 <= i < n.len() implies n[i] != 0x2f by {
+        if n[i] == 0x2f {
+            assert(n.contains(0x2fu8));
+        }
+    }
+    assert(n != seq![0x2eu8]) by {
+        if n == seq![0x2eu8] {
+            assert(n[0] == 0x2e);
+        }
+    }
+    assert(n != seq![0x2eu8, 0x2eu8]) by {
+        if n == seq![0x2eu8, 0x2eu8] {
+            assert(n[0] == 0x2e);
+        }
+    }
 }
 
 pub open spec fn temp_name() -> Seq<u8> {
